@@ -202,7 +202,7 @@ mutual
     | .node h v' ks => by
       intro e
       have hxu : u.handle = x := (find?_some _ u e).1
-      have hxn : x ≠ n := fun e' => hn (e' ▸ hxu ▸ handle_mem_handles u)
+      have hxn : x ≠ n := fun e' => hn (e' ▸ hxu ▸ fs_handle_mem_handles u)
       rw [find?_node] at e
       rw [mapAt_node]
       by_cases hh : h = n
@@ -219,7 +219,7 @@ mutual
           subst e'
           rw [if_pos hhx]
           rw [handles_node] at hn
-          rw [mapAtList_of_not_mem ks (fun hm => hn (List.mem_cons_of_mem _ hm))]
+          rw [fs_mapAtList_of_not_mem ks (fun hm => hn (List.mem_cons_of_mem _ hm))]
         · rw [if_neg hhx] at e
           rw [if_neg hhx]
           exact findList?_mapAtList_setValue_far v hn ks e
@@ -266,7 +266,7 @@ mutual
           | none => rfl
           | some u =>
             have hnu : n ∉ handles u := fun hm => n1 (hh ▸ (findList?_some ks u hf).2 n hm)
-            rw [Option.map_some, mapAt_of_not_mem u hnu]
+            rw [Option.map_some, fs_mapAt_of_not_mem u hnu]
       · rw [if_neg hh, find?_node, find?_node]
         by_cases hhx : h = x
         · rw [if_pos hhx, if_pos hhx, Option.map_some, mapAt_node, if_neg hh]
@@ -465,6 +465,6 @@ theorem specSetValue_dead {f : Forest} {n : Nat} (v : Value) (h : f.isLive n = f
     have := findList?_isSome_of_mem f.roots hm
     unfold Forest.isLive Forest.get? at h
     rw [h] at this; cases this
-  rw [mapAtList_of_not_mem f.roots this]
+  rw [fs_mapAtList_of_not_mem f.roots this]
 
 end XotModel
